@@ -170,13 +170,13 @@ theorem C15_no_lost_wakeup (h : Reachable (init p [.client g b]) c) {q0 : Queue.
 
 /-! ### Termination: a measure that decreases on every step -/
 
-/-- **Variant** (every prefetch size, batch size, generator, every schedule): `measure b c` — the pair
+/-- **Variant** (every prefetch size, batch size, generator, every schedule): `termMeasure b c` — the pair
 (one-time events still to come, 3 · `Queue.Phi` of the queue-level view + the reply's way back + the server
 thread's way to its next wait; `Lemmas/PrefetchVariant.lean`) in lexicographic order — strictly decreases on
 **every** step of **every** thread of the one-client system.  The queue part is `C04_variant`'s measure,
 transferred through the embedding. -/
 theorem C15_variant (h : Reachable (init p [.client g b]) c) {tid : Queue.Tid} {lbl : String} {c' : Cfg}
-    (hs : step c tid = some (lbl, c')) : MLt (measure b c') (measure b c) :=
+    (hs : step c tid = some (lbl, c')) : MLt (termMeasure b c') (termMeasure b c) :=
   (var_step (rlinv_reachable h) (vxc_reachable h) hs).2
 
 /-- the order of the variant is well-founded (lexicographic order on ℕ × ℕ) -/
